@@ -14,7 +14,7 @@ import (
 func init() {
 	register("C08", &propDef{
 		Title: "A finished bundle contains everything that was added or discovered",
-		Rules: []func(*Checker){ruleC08NoDrop, ruleC08Drain, ruleC08Callbacks, ruleC08Manifest, ruleC08SameJoin, ruleC08Lookup, ruleC08Meta, ruleCopiedWhenEmpty("C08.metacopy"), ruleGuardOwnField("C08.metaguard"), ruleMetaVerbatim("C08.metaverbatim"), ruleArgOrder("C08.argorder"), ruleTracerNonNil("C08.tracer"), ruleNameAgreement("C08.names", "sourcebundle"), ruleC08DirName, ruleRecordComplete("C08.complete"), ruleLiteralAgreement("C08.fields", "sourcebundle", nil), ruleMapFieldsMade("C08.mapinit"), ruleCtorParamsUsed("C08.ctorparams"), ruleFetchMemoOnly("C08.fetchmemo"), ruleSameKeyForm("C08.keyform"), ruleExhaustiveTypeSwitch("C08.exhaustive"), ruleLoopVarAddrKept("C08.loopvar", "/sourcebundle"), ruleStaleElementPointer("C08.elemaddr", "/sourcebundle"), aliasRuleFiltered(ruleC13Names, "C13.names", "C08.contenthash", 1, func(o Oblig) bool { return strings.Contains(o.Key, "directory name is a content hash") }), ruleDeprecationKeptWhole("C08.notekept"), aliasRule(ruleC11JoinOrder, "C11.joinorder", "C08.finaladdr", 3), ruleQueuesDrained("C08.drained"),
+		Rules: []func(*Checker){ruleC08NoDrop, ruleC08Drain, ruleC08Callbacks, ruleC08Manifest, ruleC08SameJoin, ruleC08Lookup, ruleC08Meta, ruleCopiedWhenEmpty("C08.metacopy"), ruleGuardOwnField("C08.metaguard"), ruleMetaVerbatim("C08.metaverbatim"), ruleArgOrder("C08.argorder"), ruleTracerNonNil("C08.tracer"), ruleNameAgreement("C08.names", "sourcebundle"), ruleC08DirName, ruleRecordComplete("C08.complete"), ruleLiteralAgreement("C08.fields", "sourcebundle", nil), ruleMapFieldsMade("C08.mapinit"), ruleCtorParamsUsed("C08.ctorparams"), ruleFetchMemoOnly("C08.fetchmemo"), ruleSameKeyForm("C08.keyform"), ruleExhaustiveTypeSwitch("C08.exhaustive"), ruleLoopVarAddrKept("C08.loopvar", "/sourcebundle"), ruleStaleElementPointer("C08.elemaddr", "/sourcebundle"), ruleRemovalsOnlyInPrepareWalk("C08.kept"), aliasRuleFiltered(ruleC13Names, "C13.names", "C08.contenthash", 1, func(o Oblig) bool { return strings.Contains(o.Key, "directory name is a content hash") }), ruleDeprecationKeptWhole("C08.notekept"), aliasRule(ruleC11JoinOrder, "C11.joinorder", "C08.finaladdr", 3), ruleQueuesDrained("C08.drained"),
 			// a relative dependency resolves inside the package that declared it: the sub-path of what the resolvers return is what the escape-refusing join let through
 			aliasRuleFiltered(ruleC17Dep, "C17.dep", "C08.selection", 1, func(o Oblig) bool { return strings.Contains(o.Key, "selection by NewestInSet") }),
 			aliasRuleFiltered(ruleC06Ctor, "C06.ctor", "C08.inside", 2, func(o Oblig) bool {
@@ -28,7 +28,7 @@ func init() {
 	register("C09", &propDef{
 		Title: "A bundle survives being re-opened and archived",
 		Rules: []func(*Checker){ruleC09Fields, ruleC09Archive, ruleChecksum("C09.checksum"), ruleC06ManifestAs("C09.addrs"),
-			ruleRootSymmetric("C09.symmetric"), ruleLinkPrecise("C09.linkprecise"), ruleC09Answers, ruleLocalMemo("C09.localmemo"), ruleGuardOwnField("C09.metaguard"), ruleMetaVerbatim("C09.metaverbatim"), ruleRestore("C09.restore"), ruleMeta("C09.meta"), ruleC04Accept2("C09.links"), ruleEntryNameAsSpelled("C09.namekept"), ruleNameAgreement("C09.names", "sourcebundle"), aliasRule(ruleC02Omit, "C02.omit", "C09.omit", 3), ruleRefusalsOfPack("C09.packrefusals"), aliasRuleFiltered(ruleBuilderAbsDir("C10.absdir"), "C10.absdir", "C09.absdir", 1, func(o Oblig) bool { return strings.Contains(o.Key, "rootDir") }),
+			ruleRootSymmetric("C09.symmetric"), ruleLinkPrecise("C09.linkprecise"), ruleC09Answers, ruleLocalMemo("C09.localmemo"), ruleGuardOwnField("C09.metaguard"), ruleMetaVerbatim("C09.metaverbatim"), ruleExtractOnlyUnpacks("C09.extractonly"), ruleRestore("C09.restore"), ruleMeta("C09.meta"), ruleC04Accept2("C09.links"), ruleEntryNameAsSpelled("C09.namekept"), ruleNameAgreement("C09.names", "sourcebundle"), aliasRule(ruleC02Omit, "C02.omit", "C09.omit", 3), ruleRefusalsOfPack("C09.packrefusals"), aliasRuleFiltered(ruleBuilderAbsDir("C10.absdir"), "C10.absdir", "C09.absdir", 1, func(o Oblig) bool { return strings.Contains(o.Key, "rootDir") }),
 			aliasRuleFiltered(ruleC02LinkTarget, "C02.linktarget", "C09.linktarget", 1, func(o Oblig) bool { return strings.Contains(o.Key, "Unpack") }),
 			// extracting the archive of a bundle skips no entry it has not looked at: an entry skipped by its header format is a file of the bundle that is missing afterwards
 			ruleBundleFrozen("C09.frozen"),
